@@ -5,5 +5,5 @@ cd "$(dirname "$0")/.."
 for p in $(/venv/bin/python -c "import json;print(' '.join(c['property_id'] for c in json.load(open('MANIFEST.json'))['checks']))"); do
   out=$(./vcheck $p --tier $TIER $2 2>&1); rc=$?
   echo "$p rc=$rc $(echo "$out" | grep -o 'runs=[0-9]*') $(echo "$out" | grep -o 'violations=[0-9]* known=[0-9]*') $(echo "$out" | grep -c '^VIOLATION') VIOLATION-lines $(echo "$out" | grep -o 'wall=[0-9.]*s')"
-  [ $rc -ne 0 ] && echo "$out" | grep -E "^violation|HARNESS" | head -3
+  if [ $rc -ne 0 ]; then echo "$out" | grep -E "^violation|HARNESS" | head -3; fi
 done
